@@ -25,6 +25,7 @@ import (
 	"sync"
 	"time"
 
+	fingerproxy "github.com/wi1dcard/fingerproxy"
 	"github.com/wi1dcard/fingerproxy/pkg/certwatcher"
 	"pgregory.net/rapid"
 )
@@ -228,16 +229,19 @@ func nameOfDER(der []byte) string {
 }
 
 // handshakeLeaf performs a real TLS handshake against GetCertificate.
-func handshakeLeaf(cw *certwatcher.CertWatcher) ([]byte, error) {
+// The server side uses the configuration the binary builds once at start-up
+// (fingerproxy's defaultTLSConfig); the client names a server or, like a client that
+// addresses the proxy by IP or a TCP-level health check, sends no server_name at all.
+func handshakeLeaf(cfg *tls.Config, sni string) ([]byte, error) {
 	a, b := net.Pipe()
 	defer a.Close()
 	defer b.Close()
 	errc := make(chan error, 1)
 	go func() {
-		s := tls.Server(b, &tls.Config{GetCertificate: cw.GetCertificate})
+		s := tls.Server(b, cfg)
 		errc <- s.Handshake()
 	}()
-	cl := tls.Client(a, &tls.Config{InsecureSkipVerify: true})
+	cl := tls.Client(a, &tls.Config{InsecureSkipVerify: true, ServerName: sni})
 	a.SetDeadline(time.Now().Add(10 * time.Second))
 	b.SetDeadline(time.Now().Add(10 * time.Second))
 	if err := cl.Handshake(); err != nil {
@@ -296,6 +300,7 @@ func runC14(layout, spelling string, ops []c14Op, concurrent bool) (vs []Violati
 		bad("harness", "certwatcher.New: %v", err)
 		return
 	}
+	tlsCfg := fingerproxy.VerifTLSConfig(cw)
 	ctx, cancel := context.WithCancel(context.Background())
 	startDone := make(chan error, 1)
 	go func() { startDone <- cw.Start(ctx) }()
@@ -532,16 +537,24 @@ func runC14(layout, spelling string, ops []c14Op, concurrent bool) (vs []Violati
 		}
 		// the same through a real handshake
 		if step%3 == 0 {
-			l, err := handshakeLeaf(cw)
+			sni := []string{"", "pair.verif.test"}[(step/3)%2]
+			l, err := handshakeLeaf(tlsCfg, sni)
 			if err != nil {
-				bad("handshake_failed", "after step %d %s a TLS handshake failed: %v", step, op, err)
+				bad("handshake_failed", "after step %d %s a TLS handshake (server_name %q) failed: %v", step, op, sni, err)
 				return false
 			}
 			if !valid[string(l)] {
 				bad("unsafe_pair", "after step %d %s a TLS handshake was offered %s", step, op, nameOfDER(l))
 				return false
 			}
+			if !bytes.Equal(l, want) {
+				bad("handshake_not_converged", "after step %d %s a new TLS handshake (server_name %q) was offered %s, the pair in place is %s", step, op, sni, nameOfDER(l), nameOfDER(want))
+				return false
+			}
 			stats["handshakes"]++
+			if sni == "" {
+				stats["handshakes_without_server_name"]++
+			}
 		}
 		lastGood = want
 		return true
